@@ -23,7 +23,10 @@ RULE = ("each case is ONE line: a structured description of 1..4 ELF objects (cl
         "0x40000000 and 2^40 (64-bit) and prints memory() as maximal runs (address, length, permissions, bytes or FNV hash), "
         "architecture() name/endianness, function_entries(), symbols(), program_entry(); `link` cases write a program and 1..3 "
         "shared objects (x86 and MIPS o32 relocations, DT_NEEDED graphs, duplicate exports, references to libraries loaded later) "
-        "and print the same for falcon::loader::ElfLinker; plus out-of-domain classes (inconsistent header, unsupported machine, "
+        "and print the same for falcon::loader::ElfLinker; `hist` cases continue on the SAME linker with 1..4 further calls of the "
+        "public load_elf (shared objects with and without dependencies of their own, a second program, names that are already "
+        "loaded - at the same base or another one -, a file that does not exist) and print memory, entries and symbols after "
+        "every call; plus out-of-domain classes (inconsistent header, unsupported machine, "
         "overlapping segments, bases that push addresses to 2^64). distinct = distinct request line; non-trivial = a load case "
         "with >= 2 PT_LOAD segments, one of them with memsz > filesz, and a defined function symbol away from the entry, or a "
         "link case with >= 2 objects")
@@ -97,6 +100,11 @@ def signature(c):
     parts = c.cls.split("/")
     if parts[0] == "link":
         head = "/".join(parts[:3])        # link/<machine>/<resolved|later-lib>, link/unsupported
+    elif parts[0] == "hist":
+        # histories of load_elf calls: which call (0 = link, 1.. = later load_elf) first disagrees
+        calls = [i for i, it in enumerate(_items(c.req)) if it == "link" or it.startswith("loadelf ")]
+        k = calls.index(d[0]) if d[0] in calls else 0
+        head = "/".join(parts[:2]) + ("/link" if k == 0 else "/later-call")
     elif parts[0] == "odd":
         head = c.cls
     else:
@@ -105,7 +113,7 @@ def signature(c):
 
 
 def nontrivial(c):
-    if c.cls.startswith("link/"):
+    if c.cls.startswith("link/") or c.cls.startswith("hist/"):
         return c.req.count("obj ") >= 2
     if not c.cls.startswith("load/"):
         return False
